@@ -1151,8 +1151,17 @@ func (f *Field) Range(name string, op pql.Token, predicate int64) (*Row, error) 
 	}
 
 	baseValue, outOfRange := bsig.baseValue(op, predicate)
-	if outOfRange {
+	if outOfRange && op != pql.NEQ {
 		return NewRow(), nil
+	}
+
+	// LT[E] and GT[E] of a predicate beyond the values representable at the
+	// current bit depth, and NEQ of an unrepresentable value, match every
+	// column holding a value (the rule of executeRowBSIGroupShard).
+	if (op == pql.LT && predicate > bsig.bitDepthMax()) || (op == pql.LTE && predicate >= bsig.bitDepthMax()) ||
+		(op == pql.GT && predicate < bsig.bitDepthMin()) || (op == pql.GTE && predicate <= bsig.bitDepthMin()) ||
+		(op == pql.NEQ && outOfRange) {
+		return view.notNull()
 	}
 
 	return view.rangeOp(op, bsig.BitDepth, baseValue)
